@@ -445,3 +445,204 @@ func TestC12(t *testing.T) {
 		Gen:  gen, Run: run,
 	})
 }
+
+// ---------------------------------------------------------------- outage mode: send errors, then more traffic
+
+// OutCase: the destination goes away for a while (sends fail with ECONNREFUSED)
+// while packets keep filling, and comes back. The size bound and "the metric
+// that does not fit starts the next packet" must survive a failed send: a
+// batch that could not be sent must not be stacked onto the next one.
+type OutCase struct {
+	Binary  bool  `json:"binary"`
+	Slack   int   `json:"slack"`
+	Default bool  `json:"default"` // MaxPacketSizeBytes 1440 instead of the minimum
+	NameLen int   `json:"nameLen"`
+	NTags   int   `json:"ntags"`
+	Hist    bool  `json:"hist"`
+	Up1     []int `json:"up1"`  // metrics per burst while the destination is up (flush after each burst)
+	Down    []int `json:"down"` // bursts while it is gone
+	Up2     []int `json:"up2"`  // bursts after it came back
+	NoFlush bool  `json:"noflush"` // no explicit Flush between bursts while down: packets are cut by size only
+}
+
+func genOut(t *rapid.T) OutCase {
+	g := func(label string, min, max int) []int {
+		return rapid.SliceOfN(rapid.IntRange(1, 120), min, max).Draw(t, label)
+	}
+	return OutCase{Binary: rapid.Bool().Draw(t, "binary"), Slack: rapid.SampledFrom([]int{0, 1, 7, 40, 300}).Draw(t, "slack"),
+		Default: rapid.Bool().Draw(t, "default"), NameLen: rapid.IntRange(1, 80).Draw(t, "nameLen"), NTags: rapid.IntRange(0, 4).Draw(t, "ntags"),
+		Hist: rapid.Bool().Draw(t, "hist"), Up1: g("up1", 0, 2), Down: g("down", 1, 4), Up2: g("up2", 1, 3), NoFlush: rapid.Bool().Draw(t, "noflush")}
+}
+
+func runOut(c OutCase) (pbt.Outcome, error) {
+	var errs pbt.Errs
+	var out pbt.Outcome
+	sink, err := udpsink.New()
+	if err != nil {
+		return out, fmt.Errorf("harness: %v", err)
+	}
+	port := sink.Port()
+	name := metricName(0, c.NameLen)
+	tags := map[string]string{}
+	var ttags []m3thrift.MetricTag
+	for i := 0; i < c.NTags; i++ {
+		k, v := fmt.Sprintf("k%d", i), strings.Repeat("v", 3*i+1)
+		tags[k] = v
+		ttags = append(ttags, m3thrift.MetricTag{Name: k, Value: v})
+	}
+	common := []m3thrift.MetricTag{{Name: "service", Value: "svc"}, {Name: "env", Value: "test"}}
+	bucketTags := []m3thrift.MetricTag{{Name: "bucketid", Value: "0000"}, {Name: "bucket", Value: strings.Repeat("x", 60)}}
+	internalTags := []m3thrift.MetricTag{{Name: "version", Value: tally.Version}, {Name: "host", Value: "global"}, {Name: "instance", Value: "global"}}
+	worst := func(n string, tg []m3thrift.MetricTag) m3thrift.Metric {
+		return m3thrift.Metric{Name: n, Timestamp: math.MaxInt64, Tags: tg, Value: m3thrift.MetricValue{MetricType: m3thrift.MetricType_COUNTER, Count: math.MaxInt64}}
+	}
+	L := m3h.MessageSize(c.Binary, math.MaxInt32, m3thrift.MetricBatch{CommonTags: common, Metrics: []m3thrift.Metric{
+		worst("tally.internal.num-write-errors", append(append([]m3thrift.MetricTag{}, internalTags...), bucketTags...))}})
+	mt := ttags
+	if c.Hist {
+		mt = append(append([]m3thrift.MetricTag{}, ttags...), bucketTags...)
+	}
+	if s := m3h.MessageSize(c.Binary, math.MaxInt32, m3thrift.MetricBatch{CommonTags: common, Metrics: []m3thrift.Metric{worst(name, mt)}}); s > L {
+		L = s
+	}
+	maxPacket := L + c.Slack
+	if c.Default && maxPacket < 1440 {
+		maxPacket = 1440
+	}
+	var mu sync.Mutex
+	batches := 0
+	emitted := int64(0) // largest value handed to the thrift client so far (values are reported in increasing order)
+	m3.VerifSetHooks(&m3.VerifHooks{NoteBatch: func(mets []m3thrift.Metric, ct []m3thrift.MetricTag, f, o int32) {
+		mu.Lock()
+		batches++
+		for _, m := range mets {
+			if !m3h.IsInternal(m.Name) && m.Value.Count > emitted {
+				emitted = m.Value.Count
+			}
+		}
+		mu.Unlock()
+	}})
+	defer m3.VerifSetHooks(nil)
+	nb := func() int { mu.Lock(); defer mu.Unlock(); return batches }
+	drained := func(v int64) bool { mu.Lock(); defer mu.Unlock(); return emitted >= v }
+	proto := m3.Compact
+	if c.Binary {
+		proto = m3.Binary
+	}
+	r, err := m3.NewReporter(m3.Options{HostPorts: []string{sink.Addr}, Service: "svc", Env: "test", Protocol: proto, MaxQueueSize: 4096, MaxPacketSizeBytes: int32(maxPacket)})
+	if err != nil {
+		sink.Close()
+		return out, fmt.Errorf("NewReporter(MaxPacketSizeBytes=%d, lower bound %d): %v", maxPacket, L, err)
+	}
+	defer r.Close()
+	cnt := r.AllocateCounter(name, tags)
+	hb := r.AllocateHistogram(name, tags, tally.ValueBuckets{1, 2}).ValueBucket(1, 2)
+	next := int64(1)
+	phase := map[int64]string{}
+	burst := func(n int, ph string, flush bool) {
+		for i := 0; i < n; i++ {
+			phase[next] = ph
+			if c.Hist {
+				hb.ReportSamples(next)
+			} else {
+				cnt.ReportCount(next)
+			}
+			next++
+		}
+		if flush {
+			r.Flush()
+			// wait until the batching goroutine has handed everything reported so far to the client
+			deadline := time.Now().Add(5 * time.Second)
+			for !drained(next-1) && time.Now().Before(deadline) {
+				time.Sleep(50 * time.Microsecond)
+			}
+		}
+	}
+	for _, n := range c.Up1 {
+		burst(n, "up1", true)
+	}
+	if !sink.WaitCount(nb(), 5*time.Second) {
+		errs.Addf("destination up: %d batches emitted, %d datagrams arrived", nb(), sink.Count())
+	}
+	first := sink.Datagrams()
+	sink.Close() // the destination goes away: sends now fail with ECONNREFUSED (every other one)
+	for _, n := range c.Down {
+		burst(n, "down", !c.NoFlush)
+		time.Sleep(200 * time.Microsecond) // let the ICMP error come back
+	}
+	burst(1, "down", true)
+	time.Sleep(500 * time.Microsecond)
+	sink2, err := udpsink.NewAt(port)
+	if err != nil {
+		return out, fmt.Errorf("harness: cannot re-open port %d: %v", port, err)
+	}
+	defer sink2.Close()
+	base := nb()
+	for _, n := range c.Up2 {
+		burst(n, "up2", true)
+	}
+	sink2.WaitCount(nb()-base-1, 5*time.Second)
+	sink2.WaitCount(nb()-base, 2*time.Millisecond)
+	seen := map[int64]int{}
+	last := int64(0)
+	ngrams, near := 0, false
+	check := func(grams [][]byte, label string) {
+		for gi, d := range grams {
+			ngrams++
+			if len(d) > maxPacket {
+				errs.Addf("%s datagram %d is %d bytes, MaxPacketSizeBytes is %d (binary=%v): a batch whose send failed was stacked onto a later one?", label, gi, len(d), maxPacket, c.Binary)
+			}
+			if len(d) > maxPacket-64 {
+				near = true
+			}
+			_, batch, err := m3h.Decode(c.Binary, d)
+			if err != nil {
+				errs.Addf("%s datagram %d (%d bytes) does not decode as one message: %v", label, gi, len(d), err)
+				continue
+			}
+			for _, m := range batch.Metrics {
+				if m3h.IsInternal(m.Name) {
+					continue
+				}
+				v := m.Value.Count
+				if _, ok := phase[v]; !ok {
+					errs.Addf("%s datagram %d carries a value %d that was never reported", label, gi, v)
+					continue
+				}
+				seen[v]++
+				if v <= last {
+					errs.Addf("%s datagram %d: value %d arrived after value %d (reordered or duplicated across a packet boundary)", label, gi, v, last)
+				}
+				last = v
+			}
+		}
+	}
+	check(first, "first-phase")
+	check(sink2.Datagrams(), "after-recovery")
+	for v, n := range seen {
+		if n > 1 {
+			errs.Addf("value %d (phase %s) was delivered %d times", v, phase[v], n)
+		}
+	}
+	for v, ph := range phase {
+		if ph == "up1" && seen[v] != 1 {
+			errs.Addf("value %d reported while the destination was up was delivered %d times", v, seen[v])
+		}
+	}
+	out.NonTrivial = ngrams >= 2 && near
+	if c.Hist {
+		out.Classes = append(out.Classes, "histogram-buckets")
+	}
+	if c.NoFlush {
+		out.Classes = append(out.Classes, "size-cut-only-while-down")
+	}
+	return out, errs.Err()
+}
+
+func TestOutage(t *testing.T) {
+	pbt.Main(t, pbt.Prop[OutCase]{
+		ID: "C12", Name: "outage",
+		Rule: "fault sequences: an M3 reporter (Compact/Binary, MaxPacketSizeBytes = minimum feasible + slack, or 1440) sends bursts of 1..120 uniquely valued counters or histogram-bucket metrics; the loopback destination is closed for 1..4 bursts (sends fail with ECONNREFUSED; with or without explicit flushes, so packets are also cut by size alone during the outage) and then re-opened on the same port for 1..3 more bursts. Oracle: EVERY datagram that arrives, before or after the outage, is <= MaxPacketSizeBytes and decodes as one message; values arrive in strictly increasing order (nothing duplicated or reordered across a packet boundary or across a failed send); everything reported while the destination was up the first time arrives exactly once. Non-trivial: >=2 datagrams and one within 64 bytes of the limit.",
+		Gen:  genOut, Run: runOut,
+	})
+}
